@@ -538,6 +538,14 @@ class DocumentationAggregator(CMakeListener):
         self.documented.append(GenericCommandDocumentation(
             command_name, docstring, args))
 
+    def has_processor(self, command: str) -> bool:
+        """
+        Whether a dedicated :code:`process_<command>()` method exists for the given lowercase command name.
+        :code:`process_generic_command()` is the fallback for all other commands and not
+        the processor of a command that happens to be called :code:`generic_command()`.
+        """
+        return command != "generic_command" and f"process_{command}" in dir(self)
+
     @staticmethod
     def clean_doc_lines(lines: List[str]) -> str:
         # If last line starts with leading spaces or tabs, count how many and remove from all lines
@@ -587,7 +595,7 @@ class DocumentationAggregator(CMakeListener):
             command = ctx.command_invocation().Identifier().getText().lower()
             self.consumed.append(ctx.command_invocation())
             self.consumed.append(ctx.bracket_doccomment())
-            if f"process_{command}" in dir(self):
+            if self.has_processor(command):
                 getattr(self, f"process_{command}")(ctx.command_invocation(), cleaned_doc)
             else:
                 self.process_generic_command(command, ctx.command_invocation(), cleaned_doc)
@@ -641,7 +649,7 @@ class DocumentationAggregator(CMakeListener):
                 self.definition_command_stack.append(DefinitionCommand(None, False))
             elif command == "endfunction" or command == "endmacro":
                 self.definition_command_stack.pop()
-            elif command != "set" and f"process_{command}" in dir(self) and ctx not in self.consumed:
+            elif command != "set" and self.has_processor(command) and ctx not in self.consumed:
                 if self.settings.input.__dict__[f"include_undocumented_{command}"]:
                     getattr(self, f"process_{command}")(ctx, "")
                 elif command == "function" or command == "macro":
